@@ -125,7 +125,29 @@ package dsl
 // included, writes a number through `omitempty` (encoding/json would leave out 0 exactly like an absent value). Lengths
 // are pointers for that reason.
 //@ json-numbers C04 package
+// docs/reference/protocol-schema.md: every entry of "types" is wrapped in its kind - {"record": ...}, {"enum": ...},
+// {"flags": ...}, {"alias": ...}. The wrapper is what tells an enum from a flags type with the same base and values (NDJSON
+// writes one as a string, the other as an array of strings). It is written by (*TypeDefinitions).MarshalJSON, so the
+// schema's list has to be declared with that type.
+//@ json-marshaler C04 dsl.ProtocolSchema.Types=dsl.TypeDefinitions
 //@ observe-args encoding/json.Marshal
+// A reference is written by its (qualified) name; the compact spelling - the bare name - only when it carries no type
+// arguments (`Image<float>` and `Image<double>` are different encodings and must not share a schema text).
+//@ func (*SimpleType).MarshalJSON
+//@   property C04
+//@   requires t != nil
+//@   ensures a_bare_name_means_no_type_arguments: typeof(lastArg("encoding/json.Marshal", 0)) == string ==> len(t.TypeArguments) == 0 && lastArg("encoding/json.Marshal", 0).(string) == t.Name
+// A union case is written as null for the null case, as its bare type when it has no tag, and with its tag otherwise;
+// a single case stands for itself, several cases are a list.
+//@ func (*TypeCase).MarshalJSON
+//@   property C04
+//@   requires tc != nil
+//@   ensures the_null_case_is_written_as_null: tc.IsNullType() ==> lastArg("encoding/json.Marshal", 0) == nil
+//@   ensures an_untagged_case_is_its_type: !tc.IsNullType() && tc.Tag == "" ==> lastArg("encoding/json.Marshal", 0) == tc.Type
+//@ func (TypeCases).MarshalJSON
+//@   property C04
+//@   ensures a_single_case_stands_for_itself: len(tcs) == 1 ==> typeof(lastArg("encoding/json.Marshal", 0)) == *TypeCase && lastArg("encoding/json.Marshal", 0).(*TypeCase) == tcs[0]
+//@   ensures several_cases_are_a_list: len(tcs) != 1 ==> typeof(lastArg("encoding/json.Marshal", 0)) != *TypeCase
 //@ func (ArrayDimensions).MarshalJSON
 //@   property C04
 //@   invariant 0: forall k in 0..rangeindex+1 :: (dims[k].Name == nil && dims[k].Length == nil)
@@ -183,6 +205,12 @@ package dsl
 //@   ensures a_walk_error_is_returned: err != nil ==> result == err
 //@   ensures every_model_file_is_collected: err == nil && info != nil && !info.IsDir() && (hasSuffix(info.Name(), ".yml") || hasSuffix(info.Name(), ".yaml")) && info.Name() != "_package.yml" ==> len(paths) == old(len(paths)) + 1 && paths[len(paths)-1] == path
 //@   ensures nothing_else_is_collected: err == nil && info != nil && (info.IsDir() || !(hasSuffix(info.Name(), ".yml") || hasSuffix(info.Name(), ".yaml")) || info.Name() == "_package.yml") ==> len(paths) == old(len(paths))
+// C12/C13: the model files are read in the order of their paths, whatever order the directory walk lists them in
+// (the definitions of all files are concatenated in that order).
+//@ func ParseYamlInDir$2
+//@   property C12,C13
+//@   requires 0 <= i && i < len(paths) && 0 <= j && j < len(paths)
+//@   ensures files_are_ordered_by_path: result == (paths[i] < paths[j])
 //@ func ParseYamlInDir
 //@   property C11,C09
 //@   ensures an_incomplete_directory_walk_is_an_error: errSeen(filepath.Walk) ==> result1 != nil
@@ -585,6 +613,9 @@ package dsl
 //@   property C09,C08
 //@   ensures negation_is_type_checked: typeof(node) == *UnaryExpression && typeof(result) == *UnaryExpression && result.(*UnaryExpression) != nil && negated(result) != nil && negated(result).GetResolvedType() != nil ==> called(GetKindIfPrimitive)
 //@   ensures negation_needs_a_numeric_operand: typeof(node) == *UnaryExpression && called(GetKindIfPrimitive) && !(lastResult(GetKindIfPrimitive).ok && (lastResult(GetKindIfPrimitive).primitiveKind == PrimitiveKindInteger || lastResult(GetKindIfPrimitive).primitiveKind == PrimitiveKindFloatingPoint || lastResult(GetKindIfPrimitive).primitiveKind == PrimitiveKindComplexFloatingPoint)) ==> called("validation.(*ErrorSink).Add")
+// "ill-typed computed field": a binary operator needs two numeric operands that have a common type: when no common type
+// exists the expression is an error (and is returned as it is, without a resolved type).
+//@   ensures operands_without_a_common_type_are_an_error: typeof(node) == *BinaryExpression && called(GetCommonType) && lastResult(GetCommonType).r1 != nil && !called("dsl.resolveSwitchCase") ==> called("validation.(*ErrorSink).Add")
 // A subscript on an array needs at least one index, also when the array's rank is unknown (`d: int[]`, `d[]` would be
 // printed as `self.d[]`), and can only name dimensions that the array declares.
 //@   ensures array_subscript_without_arguments_is_an_error: typeof(node) == *SubscriptExpression && called(ToGeneralizedType) && lastResult(ToGeneralizedType) != nil && typeof(lastResult(ToGeneralizedType).Dimensionality) == *Array && lastResult(ToGeneralizedType).Dimensionality.(*Array) != nil && (lastResult(ToGeneralizedType).Dimensionality.(*Array).Dimensions == nil || len(*lastResult(ToGeneralizedType).Dimensionality.(*Array).Dimensions) > 0) && typeof(result) == *SubscriptExpression && result.(*SubscriptExpression) != nil && len(result.(*SubscriptExpression).Arguments) == 0 ==> called("validation.(*ErrorSink).Add")
@@ -598,10 +629,94 @@ package dsl
 //@   iteration 16: the_type_of_a_switch_is_folded_with_the_common_type: calls(GetCommonType) > old(calls(GetCommonType)) ==> next(commonType) == lastResult(GetCommonType).r0
 //@   iteration 16: a_case_without_a_type_leaves_the_running_type: commonType != nil && calls(GetCommonType) == old(calls(GetCommonType)) ==> next(commonType) == commonType
 
+// ---- C06 / C13 / C09: type equality, the comparison that the union rules, the switch patterns and the evolution checks
+// share. Written from what the binary format distinguishes: a type reference never equals a union/collection; unions
+// with a different number of cases differ; collections of different kind differ; a fixed-length vector never equals a
+// dynamic one, nor one of another length; arrays of different rank differ. (Aliases are looked through first.)
+//@ spec func ugt(t Type) *GeneralizedType = GetUnderlyingType(t).(*GeneralizedType)
+//@ spec func isGT(t Type) bool = typeof(GetUnderlyingType(t)) == *GeneralizedType && GetUnderlyingType(t).(*GeneralizedType) != nil
+//@ spec func isST(t Type) bool = typeof(GetUnderlyingType(t)) == *SimpleType && GetUnderlyingType(t).(*SimpleType) != nil
+//@ spec func vecOf(t Type) *Vector = ugt(t).Dimensionality.(*Vector)
+//@ spec func isVec(t Type) bool = isGT(t) && typeof(ugt(t).Dimensionality) == *Vector && ugt(t).Dimensionality.(*Vector) != nil
+// ---- Generic instantiation (C09 rules on instantiated definitions, C01/C14 serializers of `G<A>`, C06 comparison of
+// generic definitions): inside the definition being instantiated a reference to its i-th type parameter becomes the
+// i-th type argument; a shallow instantiation leaves references alone; every referenced definition *object* that has not
+// been rewritten yet is rewritten (two references to one generic with different arguments hold two different definition
+// objects of one name: each gets its own instantiation).
+//@ func MakeGenericType$1
+//@   property C09,C06,C01,C14
+//@   invariant 0: forall k in 0..rangeindex+1 :: meta.TypeParameters[k] != targetParam
+//@   ensures a_shallow_instantiation_leaves_references_alone: typeof(node) == *SimpleType && shallow ==> result == node
+//@   ensures a_reference_to_a_type_parameter_becomes_its_argument: typeof(node) == *SimpleType && node.(*SimpleType) != nil && !shallow && typeof(old(node.(*SimpleType).ResolvedDefinition)) == *GenericTypeParameter ==> (forall k in 0..old(len(meta.TypeParameters)) :: (old(meta.TypeParameters[k]) == old(node.(*SimpleType).ResolvedDefinition).(*GenericTypeParameter) && (forall j in 0..k :: old(meta.TypeParameters[j]) != old(node.(*SimpleType).ResolvedDefinition).(*GenericTypeParameter)) ==> result == old(typeArguments[k])))
+//@   ensures a_definition_object_not_yet_rewritten_is_rewritten: typeof(node) == *SimpleType && node.(*SimpleType) != nil && !shallow && typeof(old(node.(*SimpleType).ResolvedDefinition)) != *GenericTypeParameter && !old(node.(*SimpleType).ResolvedDefinition in rewrittenDefinitions) ==> called("dsl.(*Rewriter).Rewrite")
+// C06: before two versions of a generic definition are compared the new one is re-expressed in the old one's type
+// parameters - throughout (fields and aliased types refer to parameters by identity), not only in its header.
+//@ observe-args dsl.MakeGenericType
+//@ func resolveGenericDefinition
+//@   property C06,C05
+//@   ensures the_new_definition_is_instantiated_throughout: called(MakeGenericType) ==> lastArg(MakeGenericType, 2) == false
+// C05: the old definitions that codegen names `<Name>_<label>`: every definition object reached is looked at (two
+// references to one generic definition hold two objects of one name; both are renamed).
+//@ func renameOldTypeDefinitions$1
+//@   property C05
+//@   ensures a_definition_object_not_yet_seen_is_looked_at: typeof(node) == TypeDefinition && typeof(node) != PrimitiveDefinition && !old(visited[node.(TypeDefinition)]) ==> called("dsl.(Visitor).VisitChildren")
+
+// Definitions: one definition equals itself; `size` and `uint64` are one type on the wire and equal in either order
+// (the verdict of a rule that compares two unions may not depend on which of them is defined first); apart from that
+// pair, definitions with different names or namespaces differ; a different number of type arguments differs.
+//@ func TypeDefinitionsEqual
+//@   property C06,C13,C09
+//@   ensures a_definition_equals_itself: a == b ==> result
+//@   ensures size_and_uint64_are_equal_in_both_orders: ((a == PrimitiveSize && b == PrimitiveUint64) || (a == PrimitiveUint64 && b == PrimitiveSize)) && old(a.GetDefinitionMeta().Name) != old(b.GetDefinitionMeta().Name) ==> result
+//@   ensures a_missing_definition_equals_only_a_missing_one: a != b && ((a == nil) != (b == nil)) ==> !result
+//@   ensures other_names_differ: a != nil && b != nil && a != b && !((a == PrimitiveSize && b == PrimitiveUint64) || (a == PrimitiveUint64 && b == PrimitiveSize)) && (old(a.GetDefinitionMeta().Name) != old(b.GetDefinitionMeta().Name) || old(a.GetDefinitionMeta().Namespace) != old(b.GetDefinitionMeta().Namespace)) ==> !result
+//@ func TypesEqual
+//@   property C06,C13,C09
+//@   ensures a_type_equals_itself: a == b ==> result
+//@   ensures a_missing_type_equals_only_a_missing_type: a != b && ((a == nil) != (b == nil)) ==> !result
+//@   ensures a_reference_never_equals_a_union_or_collection: a != nil && b != nil && a != b && ((isST(a) && isGT(b)) || (isGT(a) && isST(b))) ==> !result
+//@   ensures a_different_number_of_cases_differs: a != nil && b != nil && a != b && isGT(a) && isGT(b) && len(ugt(a).Cases) != len(ugt(b).Cases) ==> !result
+//@   ensures a_scalar_never_equals_a_collection: a != nil && b != nil && a != b && isGT(a) && isGT(b) && ((ugt(a).Dimensionality == nil) != (ugt(b).Dimensionality == nil)) ==> !result
+//@   ensures a_fixed_vector_never_equals_a_dynamic_one: a != nil && b != nil && a != b && isVec(a) && isVec(b) && ((vecOf(a).Length == nil) != (vecOf(b).Length == nil)) ==> !result
+//@   ensures vectors_of_different_length_differ: a != nil && b != nil && a != b && isVec(a) && isVec(b) && vecOf(a).Length != nil && vecOf(b).Length != nil && *vecOf(a).Length != *vecOf(b).Length ==> !result
+//@   ensures a_vector_never_equals_another_kind_of_collection: a != nil && b != nil && a != b && isVec(a) && isGT(b) && ugt(b).Dimensionality != nil && typeof(ugt(b).Dimensionality) != *Vector ==> !result
+
+// ---- C18 "its types are usable under their namespace from every package" / C09 "unknown type reference" / C13 "primitive
+// aliases": a name is looked up as a primitive (or primitive alias) first, then as written (a qualified name
+// `Namespace.Type` from any package), then inside the namespace of the reference; a protocol is not a type; anything
+// else is an error, never a nil definition without an error.
+//@ spec func qualifiedIn(ns string, name string) string = ns + "." + name
+//@ func resolveTypeByName
+//@   property C18,C09,C13
+//@   ensures a_primitive_name_is_the_primitive: (typeName in primitiveTypes) ==> result1 == nil && result0 == primitiveTypes[typeName]
+//@   ensures a_qualified_name_is_looked_up_as_written: !(typeName in primitiveTypes) && (typeName in symbolTable) && typeof(symbolTable[typeName]) != *ProtocolDefinition ==> result1 == nil && result0 == symbolTable[typeName]
+//@   ensures an_unqualified_name_is_looked_up_in_the_namespace_of_the_reference: !(typeName in primitiveTypes) && !(typeName in symbolTable) && (qualifiedIn(currentNamespace, typeName) in symbolTable) && typeof(symbolTable[qualifiedIn(currentNamespace, typeName)]) != *ProtocolDefinition ==> result1 == nil && result0 == symbolTable[qualifiedIn(currentNamespace, typeName)]
+//@   ensures an_unknown_name_is_an_error: !(typeName in primitiveTypes) && !(typeName in symbolTable) && !(qualifiedIn(currentNamespace, typeName) in symbolTable) ==> result1 != nil && result0 == nil
+//@   ensures a_protocol_is_not_a_type: !(typeName in primitiveTypes) && (typeName in symbolTable) && typeof(symbolTable[typeName]) == *ProtocolDefinition ==> result1 != nil
+
+// C09 "duplicate name": a definition whose qualified name is already in the symbol table is an error and does not
+// replace the first one; a definition named like a primitive is an error; otherwise it is entered under
+// `Namespace.Name`, which is the name other packages use for it.
+//@ func buildSymbolTable$1
+//@   property C09,C18
+//@   requires errorSink != nil && env != nil
+//@   ensures a_second_definition_of_a_name_is_an_error: typeof(node) != *Namespace && typeof(node) == TypeDefinition && old(node.(TypeDefinition).GetDefinitionMeta().Name) != "" && !(old(node.(TypeDefinition).GetDefinitionMeta().Name) in primitiveTypes) && old(qualifiedIn(namespace, node.(TypeDefinition).GetDefinitionMeta().Name) in env.SymbolTable) ==> len(errorSink.Errors) > old(len(errorSink.Errors)) && env.SymbolTable[qualifiedIn(namespace, old(node.(TypeDefinition).GetDefinitionMeta().Name))] == old(env.SymbolTable[qualifiedIn(namespace, node.(TypeDefinition).GetDefinitionMeta().Name)])
+//@   ensures a_reserved_name_is_an_error: typeof(node) != *Namespace && typeof(node) == TypeDefinition && (old(node.(TypeDefinition).GetDefinitionMeta().Name) in primitiveTypes) ==> len(errorSink.Errors) > old(len(errorSink.Errors))
+//@   ensures a_new_definition_is_entered_under_its_qualified_name: typeof(node) != *Namespace && typeof(node) == TypeDefinition && old(node.(TypeDefinition).GetDefinitionMeta().Name) != "" && !(old(node.(TypeDefinition).GetDefinitionMeta().Name) in primitiveTypes) && !old(qualifiedIn(namespace, node.(TypeDefinition).GetDefinitionMeta().Name) in env.SymbolTable) ==> (qualifiedIn(namespace, old(node.(TypeDefinition).GetDefinitionMeta().Name)) in env.SymbolTable) && env.SymbolTable[qualifiedIn(namespace, old(node.(TypeDefinition).GetDefinitionMeta().Name))] == node.(TypeDefinition)
+
 // ---- C09 "ill-typed computed field" / C19 static type: the built-in functions. A call with the wrong number of
 // arguments is an error; whatever comes back (the call itself or the literal it was simplified to) has type `size`.
 // (The arguments are rewritten first, through callbacks that may report errors of their own, so "is an error" is stated
 // as "an error is added to a sink by this function", not as a comparison with the length of the sink on entry.)
+// C10 (termination) / C09: the expression of a switch case is resolved in the scope of the switch - same record, same
+// memo of resolved fields and the same chain of computed fields being resolved (the chain is what detects a cycle of
+// computed fields; a case that starts an empty chain recurses until the stack is gone) - plus, for a declaration pattern,
+// the declared variable.
+//@ func resolveSwitchCase
+//@   property C10,C09,C19
+//@   requires switchCase != nil && context != nil && self != nil && errorSink != nil
+//@   ensures the_case_expression_is_resolved_in_the_scope_of_the_switch: called("dsl.(*RewriterWithContext[*ComputedFieldScope]).Rewrite[*github.com/microsoft/yardl/tooling/pkg/dsl.ComputedFieldScope]") ==> lastArg("dsl.(*RewriterWithContext[*ComputedFieldScope]).Rewrite[*github.com/microsoft/yardl/tooling/pkg/dsl.ComputedFieldScope]", 2) != nil && lastArg("dsl.(*RewriterWithContext[*ComputedFieldScope]).Rewrite[*github.com/microsoft/yardl/tooling/pkg/dsl.ComputedFieldScope]", 2).Record == old(context.Record) && lastArg("dsl.(*RewriterWithContext[*ComputedFieldScope]).Rewrite[*github.com/microsoft/yardl/tooling/pkg/dsl.ComputedFieldScope]", 2).RewrittenFields == old(context.RewrittenFields) && len(lastArg("dsl.(*RewriterWithContext[*ComputedFieldScope]).Rewrite[*github.com/microsoft/yardl/tooling/pkg/dsl.ComputedFieldScope]", 2).CurrentFields) == old(len(context.CurrentFields)) && (forall k in 0..old(len(context.CurrentFields)) :: lastArg("dsl.(*RewriterWithContext[*ComputedFieldScope]).Rewrite[*github.com/microsoft/yardl/tooling/pkg/dsl.ComputedFieldScope]", 2).CurrentFields[k] == old(context.CurrentFields[k]))
+//@   ensures a_declaration_pattern_adds_its_variable: called("dsl.(*RewriterWithContext[*ComputedFieldScope]).Rewrite[*github.com/microsoft/yardl/tooling/pkg/dsl.ComputedFieldScope]") && typeof(old(switchCase.Pattern)) == *DeclarationPattern ==> len(lastArg("dsl.(*RewriterWithContext[*ComputedFieldScope]).Rewrite[*github.com/microsoft/yardl/tooling/pkg/dsl.ComputedFieldScope]", 2).Variables) == old(len(context.Variables)) + 1 && lastArg("dsl.(*RewriterWithContext[*ComputedFieldScope]).Rewrite[*github.com/microsoft/yardl/tooling/pkg/dsl.ComputedFieldScope]", 2).Variables[old(len(context.Variables))] == old(switchCase.Pattern).(*DeclarationPattern)
 //@ func resolveDimensionCountFunctionCall
 //@   property C09,C19
 //@   requires errorSink != nil && functionCall != nil && visitor != nil
@@ -864,6 +979,10 @@ package dsl
 // two spellings build different trees (the expanded form keeps the element cases on the collection node itself), and
 // both must be accepted.
 //@   property C13
+// "ill-formed union": null is only allowed as the first option; two cases may not have the same tag.
+//@   iteration 0: null_is_only_allowed_as_the_first_option: old(typeCase.IsNullType()) && i != 0 ==> len(errorSink.Errors) > old(len(errorSink.Errors))
+//@   iteration 5: two_cases_with_one_tag_are_an_error: item != nil && old(item.Tag in tags) ==> len(errorSink.Errors) > old(len(errorSink.Errors))
+//@   ensures a_union_without_options_is_an_error: typeof(node) == *GeneralizedType && node.(*GeneralizedType) != nil && old(len(node.(*GeneralizedType).Cases)) == 0 ==> called("validation.(*ErrorSink).Add")
 //@   iteration 1: a_collection_of_unions_is_not_a_nested_union: typeof(typeCase.Type) == *GeneralizedType && typeCase.Type.(*GeneralizedType) != nil && typeCase.Type.(*GeneralizedType).Dimensionality != nil ==> len(errorSink.Errors) == old(len(errorSink.Errors))
 //@   iteration 1: a_union_case_that_is_a_union_is_an_error: typeof(typeCase.Type) == *GeneralizedType && typeCase.Type.(*GeneralizedType) != nil && typeCase.Type.(*GeneralizedType).Dimensionality == nil && len(typeCase.Type.(*GeneralizedType).Cases) > 1 ==> len(errorSink.Errors) == old(len(errorSink.Errors)) + 1
 
